@@ -1023,4 +1023,429 @@ theorem endpoint_chain_verdict_core (cfg : Cfg) (mo : MarksOK cfg) (vb : VBits c
     cases ho : policyOutcome env pkt.v6 pkt (polRules p) <;> simp only [ho] at this ⊢ <;> exact this
   · exact hmD
 
+/-! ### every chain type, and policy-level outcomes -/
+
+/-- verdict of the tier loop alone: `none` = no tier decided (continue with whatever follows) -/
+def tiersVerdict : List (List PolOutcome × Bool) → Option C09.Verdict
+  | [] => none
+  | (outs, dp) :: rest =>
+    match tierResult outs dp with
+    | .allow => some .allow
+    | .deny => some .deny
+    | .nextTier => tiersVerdict rest
+
+theorem endpointVerdict_eq (ts : List (List PolOutcome × Bool)) (ps : List PolOutcome) :
+    endpointVerdict ts ps = (tiersVerdict ts).getD (profilesVerdict ps) := by
+  induction ts with
+  | nil => rfl
+  | cons t ts ih =>
+    obtain ⟨outs, dp⟩ := t
+    simp only [endpointVerdict, tiersVerdict]
+    cases tierResult outs dp <;> simp [ih]
+
+/-- shape of a result for a three-valued verdict -/
+def TShape (cfg : Cfg) (v : Option C09.Verdict) (final : Mark → Result) (r : Result) : Prop :=
+  match v with
+  | some .allow => ∃ m', r = .returned m' ∧ m' &&& cfg.markAccept = cfg.markAccept
+  | some .deny => ∃ m', r = .verdict (denyV cfg) m'
+  | none => ∃ m', r = final m' ∧ m' &&& cfg.markAccept = 0 ∧ m' &&& cfg.markDrop = 0
+
+/-- the tier loop for ANY chain type: `endDrop` says whether this chain type has the end-of-tier
+drop (normal and forward chains do; untracked and pre-DNAT chains do not — there an undecided
+tier always continues, as if its default action were Pass) -/
+theorem tiers_shape3 (cfg : Cfg) (vb : VBits cfg) (e : EpCfg) (endDrop : Bool)
+    (hend : (e.chainType = .normal ∨ e.chainType = .forward) ↔ endDrop = true)
+    (call : String → Mark → Result) (final : Mark → Result) (out : String → PolOutcome)
+    (tiers : List Tier)
+    (hb : ∀ t ∈ tiers, ∀ th ∈ tierTargets t, Behaves cfg call th.1 (out th.1))
+    (m : Mark) (hm : m &&& cfg.markAccept = 0) (hmD : m &&& cfg.markDrop = 0) :
+    TShape cfg
+      (tiersVerdict (tiers.map fun t => ((tierTargets t).map (fun th => out th.1), t.defaultPass || !endDrop)))
+      final (tiersSeq cfg e call final tiers m) := by
+  induction tiers generalizing m with
+  | nil => exact ⟨m, rfl, hm, hmD⟩
+  | cons t ts ih =>
+    have ih' := ih (fun t' ht' => hb t' (List.mem_cons_of_mem _ ht'))
+    simp only [tiersSeq, List.map_cons, tiersVerdict]
+    by_cases hg : t.groups.isEmpty = true
+    · have : tierTargets t = [] := by
+        have : t.groups = [] := by simpa using hg
+        simp [tierTargets, this]
+      simp only [hg, if_true, this, List.map_nil, tierResult, List.find?_nil, List.isEmpty_nil, true_or, if_true]
+      exact ih' m hm hmD
+    · simp only [hg, if_false]
+      have hts := targets_shape cfg vb call (endOfTier cfg e t (tiersSeq cfg e call final ts)) out (tierTargets t)
+        (tierTargets_hns t) (hb t List.mem_cons_self) _ (clearP_of_A0 vb hm hmD)
+      have hfd : ∀ dp, tierResult ((tierTargets t).map fun th => out th.1) dp =
+          (match firstDecision ((tierTargets t).map fun th => out th.1) with
+            | .allow => TierResult.allow
+            | .deny => TierResult.deny
+            | .pass => TierResult.nextTier
+            | .noMatch => if ((tierTargets t).map fun th => out th.1).isEmpty ∨ dp then .nextTier else .deny) := by
+        intro dp
+        unfold tierResult firstDecision
+        cases hfind : ((tierTargets t).map fun th => out th.1).find? (· ≠ PolOutcome.noMatch) with
+        | none => rfl
+        | some x =>
+          have hx : x ≠ .noMatch := by simpa using List.find?_some hfind
+          cases x <;> first | rfl | exact absurd rfl hx
+      rw [hfd]
+      cases hd : firstDecision ((tierTargets t).map fun th => out th.1) <;> simp only [hd, ContShape] at hts ⊢
+      · obtain ⟨m', hr, hm'⟩ := hts
+        exact ⟨m', hr, hm'.1⟩
+      · exact hts
+      · obtain ⟨m', hm', hr⟩ := hts
+        rw [hr]
+        have : endOfTier cfg e t (tiersSeq cfg e call final ts) m' = tiersSeq cfg e call final ts m' := by
+          unfold endOfTier
+          rw [if_neg]
+          intro hc
+          have := (hasP_tests vb hm').2.1
+          rw [this] at hc
+          exact absurd hc.2.2.2 (by simp)
+        rw [this]
+        exact ih' m' hm'.2.1 hm'.2.2
+      · obtain ⟨m', hm', hr⟩ := hts
+        rw [hr]
+        have hemp : ((tierTargets t).map fun th => out th.1).isEmpty = !t.groups.any (·.hasNonStaged) := by
+          rw [List.isEmpty_map, tierTargets_isEmpty]
+        have hP := (clear_tests vb hm').2.1
+        by_cases hdeny : endDrop = true ∧ t.groups.any (·.hasNonStaged) = true ∧ ¬ t.defaultPass = true
+        · have h1 : endOfTier cfg e t (tiersSeq cfg e call final ts) m' =
+              .verdict (if cfg.reject then .reject else .drop) m' := by
+            unfold endOfTier
+            rw [if_pos ⟨hend.2 hdeny.1, hdeny.2.1, hdeny.2.2, hP⟩]
+          have this : ¬ (((tierTargets t).map fun th => out th.1).isEmpty = true ∨ (t.defaultPass || !endDrop) = true) := by
+            rw [hemp]; simp [hdeny.1, hdeny.2.1, hdeny.2.2]
+          rw [h1, if_neg this]
+          exact ⟨m', rfl⟩
+        · have h1 : endOfTier cfg e t (tiersSeq cfg e call final ts) m' = tiersSeq cfg e call final ts m' := by
+            unfold endOfTier
+            rw [if_neg (fun hc => hdeny ⟨hend.1 hc.1, hc.2.1, hc.2.2.1⟩)]
+          have this : ((tierTargets t).map fun th => out th.1).isEmpty = true ∨ (t.defaultPass || !endDrop) = true := by
+            rw [hemp]
+            by_cases ha : t.groups.any (·.hasNonStaged) = true
+            · refine Or.inr ?_
+              by_cases hdp : t.defaultPass = true
+              · simp [hdp]
+              · by_cases he : endDrop = true
+                · exact absurd ⟨he, ha, hdp⟩ hdeny
+                · simp [he]
+            · exact Or.inl (by simpa using ha)
+          rw [h1, if_pos this]
+          exact ih' m' hm'.1 hm'.2.2
+
+/-- an admin-down endpoint drops everything -/
+theorem endpoint_admin_down (cfg : Cfg) (e : EpCfg) (env : Env) (call : String → Mark → Result) (pkt : Packet)
+    (name : String) (tiers : List Tier) (profiles : List String) (m : Mark) (hdown : e.adminUp = false) :
+    runRules env call pkt (endpointChain cfg e name tiers profiles).rules m = .verdict (denyV cfg) m := by
+  cases hr : cfg.reject <;>
+    simp [endpointChain, hdown, runRules, Rule.matches, resolveAction, C08.denyAction, denyV, hr]
+
+/-- **Endpoint chains of every chain type** (normal, forward, untracked, pre-DNAT; with or without
+a failsafe chain that lets the packet through), admin-up, packet outside the conntrack / encap
+preamble, given the behaviour of the jump targets:
+* normal: the reference verdict `endpointVerdict` (tiers, then profiles, else deny);
+* forward: with no tiers at all the packet is allowed; otherwise the tier verdict, and an
+  undecided packet returns to the caller with the accept bit clear;
+* untracked / pre-DNAT: the tier verdict without end-of-tier drop (an undecided tier always
+  continues); undecided packets return with the accept bit clear. -/
+theorem endpoint_chain_shape_any (cfg : Cfg) (vb : VBits cfg) (e : EpCfg) (env : Env)
+    (call : String → Mark → Result) (pkt : Packet) (name : String) (tiers : List Tier) (profiles : List String)
+    (out : String → PolOutcome) (m : Mark)
+    (hup : e.adminUp = true)
+    (hfs : e.failsafe ≠ "" → ∀ m', call e.failsafe m' = .returned m')
+    (hct : pkt.ctState ≠ "RELATED" ∧ pkt.ctState ≠ "ESTABLISHED" ∧ pkt.ctState ≠ "INVALID")
+    (henc : (e.dropVXLAN = true → pkt.proto ≠ 17) ∧ (e.dropIPIP = true → pkt.proto ≠ 4))
+    (hb : ∀ t ∈ tiers, ∀ th ∈ tierTargets t, Behaves cfg call th.1 (out th.1))
+    (hp : ∀ p ∈ profiles, BehavesP cfg call p (out p)) (hmD : m &&& cfg.markDrop = 0) :
+    let r := runRules env call pkt (endpointChain cfg e name tiers profiles).rules m
+    let outs := fun (endDrop : Bool) => tiers.map fun t => ((tierTargets t).map (fun th => out th.1), t.defaultPass || !endDrop)
+    match e.chainType with
+    | .normal => VShape cfg ((tiersVerdict (outs true)).getD (profilesVerdict (profiles.map out))) r
+    | .forward =>
+      if tiers.isEmpty then ∃ m', r = .returned m' ∧ m' &&& cfg.markAccept = cfg.markAccept
+      else TShape cfg (tiersVerdict (outs true)) (fun m' => .returned m') r
+    | _ => TShape cfg (tiersVerdict (outs false)) (fun m' => .returned m') r := by
+  intro r outs
+  have k4 : e.dropIPIP = true → ¬ (4 = pkt.proto) := fun h h' => henc.2 h h'.symm
+  have k17 : e.dropVXLAN = true → ¬ (17 = pkt.proto) := fun h h' => henc.1 h h'.symm
+  -- the preamble: conntrack rules, failsafe jump, clearing of accept|pass, encap drops
+  have hpre : r = runRules env call pkt
+      (tiers.flatMap (tierRules cfg e) ++
+        ((if tiers.isEmpty ∧ e.chainType = .forward then
+            [({ action := .setMark cfg.markAccept, comments := ["Allow forwarded traffic by default"] } : Netfilter.Rule),
+             { action := .ret, comments := ["Return for accepted forward traffic"] }] else []) ++
+         (if e.chainType = .normal then profileRules cfg e profiles else [])))
+      (m &&& ~~~ (cfg.markAccept ||| cfg.markPass)) := by
+    show runRules env call pkt (endpointChain cfg e name tiers profiles).rules m = _
+    simp only [endpointChain, hup, not_true_eq_false, if_false, conntrackRules]
+    by_cases hf : e.failsafe = ""
+    · cases hty : e.chainType <;> cases har : e.allowIsReturn <;> cases hci : e.disableCtInvalid <;>
+        cases hv : e.dropVXLAN <;> cases hi : e.dropIPIP <;>
+        simp [runRules, Rule.matches, resolveAction, applyMark, Clause.matches, xorb, protoIs,
+          hv, hi, hct.1, hct.2.1, hct.2.2, k4, k17, hf]
+    · have hfs' := hfs hf
+      cases hty : e.chainType <;> cases har : e.allowIsReturn <;> cases hci : e.disableCtInvalid <;>
+        cases hv : e.dropVXLAN <;> cases hi : e.dropIPIP <;>
+        simp [runRules, Rule.matches, resolveAction, applyMark, Clause.matches, xorb, protoIs,
+          hv, hi, hct.1, hct.2.1, hct.2.2, k4, k17, hf, hfs']
+  have hA0 := clearAP_and_A cfg m
+  have hD0 : (m &&& ~~~ (cfg.markAccept ||| cfg.markPass)) &&& cfg.markDrop = 0 := by
+    ext i hi
+    have h1 := congrArg (fun v : Mark => v[i]) hmD
+    simp at h1 ⊢
+    cases hm : m[i] <;> simp_all
+  cases hty : e.chainType
+  · -- normal
+    simp only
+    rw [hpre, hty]
+    simp only [reduceCtorEq, and_false, if_false, if_true, List.nil_append]
+    rw [tiers_exact]
+    have h3 := tiers_shape3 cfg vb e true (by simp [hty]) call
+      (fun m' => runRules env call pkt (profileRules cfg e profiles) m') out tiers hb _ hA0 hD0
+    simp only [Bool.not_true, Bool.or_false] at h3
+    have houts : outs true = tiers.map fun t => ((tierTargets t).map (fun th => out th.1), t.defaultPass) := by
+      simp [outs]
+    rw [houts]
+    cases htv : tiersVerdict (tiers.map fun t => ((tierTargets t).map (fun th => out th.1), t.defaultPass)) with
+    | none =>
+      simp only [htv, TShape] at h3
+      obtain ⟨m', hr, hA, hD⟩ := h3
+      simp only [Option.getD_none]
+      rw [hr, profile_section_exact]
+      exact profiles_shape cfg vb call out profiles hp m' hA hD
+    | some v =>
+      simp only [htv, TShape] at h3
+      cases v <;> simp only [Option.getD_some, VShape] <;> exact h3
+  · -- untracked
+    simp only
+    rw [hpre, hty]
+    simp only [reduceCtorEq, and_false, if_false, List.nil_append, List.append_nil]
+    have := tiers_exact cfg e env call pkt tiers [] (m &&& ~~~ (cfg.markAccept ||| cfg.markPass))
+    simp only [List.append_nil] at this
+    rw [this]
+    have h3 := tiers_shape3 cfg vb e false (by simp [hty]) call (fun m' => runRules env call pkt [] m') out tiers hb _ hA0 hD0
+    simpa [outs, runRules] using h3
+  · -- pre-DNAT
+    simp only
+    rw [hpre, hty]
+    simp only [reduceCtorEq, and_false, if_false, List.nil_append, List.append_nil]
+    have := tiers_exact cfg e env call pkt tiers [] (m &&& ~~~ (cfg.markAccept ||| cfg.markPass))
+    simp only [List.append_nil] at this
+    rw [this]
+    have h3 := tiers_shape3 cfg vb e false (by simp [hty]) call (fun m' => runRules env call pkt [] m') out tiers hb _ hA0 hD0
+    simpa [outs, runRules] using h3
+  · -- forward
+    simp only
+    rw [hpre, hty]
+    by_cases hte : tiers.isEmpty = true
+    · have : tiers = [] := by simpa using hte
+      subst this
+      simp only [List.isEmpty_nil, and_self, if_true, reduceCtorEq, if_false, List.flatMap_nil, List.nil_append,
+        List.append_nil]
+      refine ⟨(m &&& ~~~ (cfg.markAccept ||| cfg.markPass)) ||| cfg.markAccept, ?_, ?_⟩
+      · simp [runRules, Rule.matches, resolveAction, applyMark]
+      · ext i hi; simp; cases m[i] <;> cases cfg.markAccept[i] <;> simp
+    · simp only [hte, Bool.false_eq_true, false_and, if_false, reduceCtorEq, List.nil_append, List.append_nil]
+      have := tiers_exact cfg e env call pkt tiers [] (m &&& ~~~ (cfg.markAccept ||| cfg.markPass))
+      simp only [List.append_nil] at this
+      rw [this]
+      have h3 := tiers_shape3 cfg vb e true (by simp [hty]) call (fun m' => runRules env call pkt [] m') out tiers hb _ hA0 hD0
+      simpa [outs, runRules] using h3
+
+/-! ### flattening: target-level outcomes = policy-level outcomes -/
+
+theorem firstDecision_append (a b : List PolOutcome) :
+    firstDecision (a ++ b) = if firstDecision a = .noMatch then firstDecision b else firstDecision a := by
+  induction a with
+  | nil => simp [firstDecision]
+  | cons o os ih =>
+    rw [List.cons_append, firstDecision_cons, firstDecision_cons, ih]
+    cases o <;> simp
+
+theorem tierResult_of_fd (l1 l2 : List PolOutcome) (dp : Bool) (h1 : firstDecision l1 = firstDecision l2)
+    (h2 : l1.isEmpty = l2.isEmpty) : tierResult l1 dp = tierResult l2 dp := by
+  have key : ∀ l : List PolOutcome, tierResult l dp =
+      (match firstDecision l with
+        | .allow => TierResult.allow
+        | .deny => TierResult.deny
+        | .pass => TierResult.nextTier
+        | .noMatch => if l.isEmpty ∨ dp then .nextTier else .deny) := by
+    intro l
+    unfold tierResult firstDecision
+    cases hfind : l.find? (· ≠ PolOutcome.noMatch) with
+    | none => rfl
+    | some x =>
+      have hx : x ≠ .noMatch := by simpa using List.find?_some hfind
+      cases x <;> first | rfl | exact absurd rfl hx
+  rw [key l1, key l2, h1, h2]
+
+theorem groups_fd (out polOut : String → PolOutcome) (gs : List Group)
+    (o1 : ∀ g ∈ gs, g.inlined = true → ∀ p ∈ g.nonStaged, out p.chain = polOut p.chain)
+    (o2 : ∀ g ∈ gs, g.inlined = false → out g.chain = firstDecision (g.nonStaged.map fun p => polOut p.chain)) :
+    firstDecision ((gs.flatMap fun g => g.jumpTargets.map fun c => (c, g.hasNonStaged)).map fun th => out th.1) =
+      firstDecision ((gs.flatMap (·.nonStaged)).map fun p => polOut p.chain) := by
+  induction gs with
+  | nil => rfl
+  | cons g gs ih =>
+    have ih' := ih (fun g' hg' => o1 g' (List.mem_cons_of_mem _ hg')) (fun g' hg' => o2 g' (List.mem_cons_of_mem _ hg'))
+    simp only [List.flatMap_cons, List.map_append, firstDecision_append, ih']
+    have hg : firstDecision ((g.jumpTargets.map fun c => (c, g.hasNonStaged)).map fun th => out th.1) =
+        firstDecision (g.nonStaged.map fun p => polOut p.chain) := by
+      simp only [List.map_map, Function.comp_def]
+      unfold Group.jumpTargets
+      cases hin : g.inlined
+      · simp only [Bool.false_eq_true, if_false, List.map_cons, List.map_nil]
+        rw [o2 g List.mem_cons_self hin, firstDecision_cons]
+        generalize firstDecision (List.map (fun p => polOut p.chain) g.nonStaged) = x
+        cases x <;> simp [firstDecision]
+      · simp only [if_true, List.map_map, Function.comp_def]
+        congr 1
+        apply List.map_congr_left
+        intro p hp
+        exact o1 g List.mem_cons_self hin p hp
+    rw [hg]
+
+theorem groups_empty (gs : List Group) :
+    (!gs.any (·.hasNonStaged)) = (gs.flatMap (·.nonStaged)).isEmpty := by
+  induction gs with
+  | nil => rfl
+  | cons g gs ih =>
+    simp only [List.flatMap_cons, List.any_cons, Bool.not_or]
+    rw [ih]
+    cases hn : g.nonStaged <;> simp [Group.hasNonStaged, hn]
+
+/-- per tier: deciding over the jump targets (an inlined policy, or a group chain that reports its
+first deciding enforced member) is deciding over the tier's enforced policies in order -/
+theorem tier_flatten (t : Tier) (out polOut : String → PolOutcome)
+    (o1 : ∀ g ∈ t.groups, g.inlined = true → ∀ p ∈ g.nonStaged, out p.chain = polOut p.chain)
+    (o2 : ∀ g ∈ t.groups, g.inlined = false → out g.chain = firstDecision (g.nonStaged.map fun p => polOut p.chain))
+    (dp : Bool) :
+    tierResult ((tierTargets t).map fun th => out th.1) dp =
+      tierResult ((t.groups.flatMap (·.nonStaged)).map fun p => polOut p.chain) dp := by
+  apply tierResult_of_fd
+  · exact groups_fd out polOut t.groups o1 o2
+  · rw [List.isEmpty_map, List.isEmpty_map, tierTargets_isEmpty, groups_empty]
+
+/-- the tier verdict at target level is the tier verdict over the enforced policies -/
+theorem tiersVerdict_flatten (tiers : List Tier) (out polOut : String → PolOutcome) (f : Bool → Bool)
+    (o1 : ∀ t ∈ tiers, ∀ g ∈ t.groups, g.inlined = true → ∀ p ∈ g.nonStaged, out p.chain = polOut p.chain)
+    (o2 : ∀ t ∈ tiers, ∀ g ∈ t.groups, g.inlined = false →
+      out g.chain = firstDecision (g.nonStaged.map fun p => polOut p.chain)) :
+    tiersVerdict (tiers.map fun t => ((tierTargets t).map (fun th => out th.1), f t.defaultPass)) =
+      tiersVerdict (tiers.map fun t => ((t.groups.flatMap (·.nonStaged)).map (fun p => polOut p.chain), f t.defaultPass)) := by
+  induction tiers with
+  | nil => rfl
+  | cons t ts ih =>
+    simp only [List.map_cons, tiersVerdict]
+    rw [tier_flatten t out polOut (o1 t List.mem_cons_self) (o2 t List.mem_cons_self),
+      ih (fun t' ht' => o1 t' (List.mem_cons_of_mem _ ht')) (fun t' ht' => o2 t' (List.mem_cons_of_mem _ ht'))]
+
+/-- the jump targets of the tiers behave like their outcomes, over a chain set -/
+theorem targets_behave (cfg : Cfg) (mo : MarksOK cfg) (vb : VBits cfg) (vd : VD cfg) (env : Env)
+    (pkt : Packet) (chains : List Chain) (tiers : List Tier)
+    (polRules : String → List Policy.Rule) (out : String → PolOutcome) (F : Nat)
+    (hgrp : ∀ t ∈ tiers, ∀ g ∈ t.groups, g.inlined = false →
+      lookupChain chains g.chain = some (policyGroupChain cfg g).rules)
+    (hpol : ∀ t ∈ tiers, ∀ g ∈ t.groups, ∀ p ∈ g.pols, p.staged = false →
+      PolicyChainOK cfg env pkt chains (polRules p.chain) p.chain)
+    (o1 : ∀ t ∈ tiers, ∀ g ∈ t.groups, g.inlined = true → ∀ p ∈ g.nonStaged,
+      out p.chain = policyOutcome env pkt.v6 pkt (polRules p.chain))
+    (o2 : ∀ t ∈ tiers, ∀ g ∈ t.groups, g.inlined = false →
+      out g.chain = firstDecision (g.nonStaged.map fun p => policyOutcome env pkt.v6 pkt (polRules p.chain))) :
+    ∀ t ∈ tiers, ∀ th ∈ tierTargets t, Behaves cfg (evalChain env chains pkt (F + 3)) th.1 (out th.1) := by
+  intro t ht th hth
+  simp only [tierTargets, List.mem_flatMap, List.mem_map] at hth
+  obtain ⟨g, hg, c, hc, rfl⟩ := hth
+  simp only
+  unfold Group.jumpTargets at hc
+  cases hin : g.inlined
+  · simp only [hin, Bool.false_eq_true, if_false, List.mem_singleton] at hc
+    subst hc
+    rw [o2 t ht g hg hin]
+    intro m' hm'
+    rw [evalChain_of_lookup (hgrp t ht g hg hin),
+      policy_group_chain_exact cfg env _ pkt g m' (by
+        have := (clear_tests vb hm').1
+        simpa using this)]
+    exact seq_shape cfg vb (evalChain env chains pkt (F + 2))
+      (fun c => policyOutcome env pkt.v6 pkt (polRules c)) g.pols
+      (fun p hp hs => policy_behaves cfg mo vb vd env pkt chains _ p.chain (F + 1) (hpol t ht g hg p hp hs)) m' hm'
+  · simp only [hin, if_true, List.mem_map] at hc
+    obtain ⟨p, hp, rfl⟩ := hc
+    rw [o1 t ht g hg hin p hp]
+    have hpm : p ∈ g.pols ∧ p.staged = false := by
+      simp only [Group.nonStaged, List.mem_filter, Bool.not_eq_true'] at hp
+      exact hp
+    exact policy_behaves cfg mo vb vd env pkt chains _ p.chain (F + 2) (hpol t ht g hg p hpm.1 hpm.2)
+
+theorem profiles_behave (cfg : Cfg) (mo : MarksOK cfg) (env : Env) (pkt : Packet) (chains : List Chain)
+    (profiles : List String) (polRules : String → List Policy.Rule) (out : String → PolOutcome) (F : Nat)
+    (hprof : ∀ p ∈ profiles, ProfileChainOK cfg env pkt chains (polRules p) p)
+    (o3 : ∀ p ∈ profiles, out p = policyOutcome env pkt.v6 pkt (polRules p)) :
+    ∀ p ∈ profiles, BehavesP cfg (evalChain env chains pkt (F + 3)) p (out p) := by
+  intro p hp
+  obtain ⟨ctx, comment, rs, hrs, hl, hre, hacts⟩ := hprof p hp
+  intro m' hA hD
+  rw [o3 p hp, evalChain_of_lookup hl]
+  have := profile_chain_shape cfg mo env pkt (evalChain env chains pkt (F + 2)) ctx (polRules p) comment hre hacts rs hrs m' hA hD
+  cases ho : policyOutcome env pkt.v6 pkt (polRules p) <;> simp only [ho] at this ⊢ <;> exact this
+
+/-- per-tier enforced policy outcomes, in evaluation order, with the effective default action -/
+def policyTiers (env : Env) (pkt : Packet) (polRules : String → List Policy.Rule) (tiers : List Tier)
+    (endDrop : Bool) : List (List PolOutcome × Bool) :=
+  tiers.map fun t =>
+    ((t.groups.flatMap (·.nonStaged)).map (fun p => policyOutcome env pkt.v6 pkt (polRules p.chain)),
+     t.defaultPass || !endDrop)
+
+theorem endpoint_chain_verdict_any (cfg : Cfg) (mo : MarksOK cfg) (vb : VBits cfg) (vd : VD cfg) (e : EpCfg)
+    (env : Env) (pkt : Packet) (chains : List Chain) (name : String) (tiers : List Tier) (profiles : List String)
+    (polRules : String → List Policy.Rule) (out : String → PolOutcome) (F : Nat) (m : Mark)
+    (hup : e.adminUp = true)
+    (hfs : e.failsafe ≠ "" → ∀ m', evalChain env chains pkt (F + 3) e.failsafe m' = .returned m')
+    (hct : pkt.ctState ≠ "RELATED" ∧ pkt.ctState ≠ "ESTABLISHED" ∧ pkt.ctState ≠ "INVALID")
+    (henc : (e.dropVXLAN = true → pkt.proto ≠ 17) ∧ (e.dropIPIP = true → pkt.proto ≠ 4))
+    (hmD : m &&& cfg.markDrop = 0)
+    (hep : lookupChain chains name = some (endpointChain cfg e name tiers profiles).rules)
+    (hgrp : ∀ t ∈ tiers, ∀ g ∈ t.groups, g.inlined = false →
+      lookupChain chains g.chain = some (policyGroupChain cfg g).rules)
+    (hpol : ∀ t ∈ tiers, ∀ g ∈ t.groups, ∀ p ∈ g.pols, p.staged = false →
+      PolicyChainOK cfg env pkt chains (polRules p.chain) p.chain)
+    (hprof : ∀ p ∈ profiles, ProfileChainOK cfg env pkt chains (polRules p) p)
+    (o1 : ∀ t ∈ tiers, ∀ g ∈ t.groups, g.inlined = true → ∀ p ∈ g.nonStaged,
+      out p.chain = policyOutcome env pkt.v6 pkt (polRules p.chain))
+    (o2 : ∀ t ∈ tiers, ∀ g ∈ t.groups, g.inlined = false →
+      out g.chain = firstDecision (g.nonStaged.map fun p => policyOutcome env pkt.v6 pkt (polRules p.chain)))
+    (o3 : ∀ p ∈ profiles, out p = policyOutcome env pkt.v6 pkt (polRules p)) :
+    let r := evalChain env chains pkt (F + 4) name m
+    match e.chainType with
+    | .normal =>
+      VShape cfg (endpointVerdict (policyTiers env pkt polRules tiers true)
+        (profiles.map fun p => policyOutcome env pkt.v6 pkt (polRules p))) r
+    | .forward =>
+      if tiers.isEmpty then ∃ m', r = .returned m' ∧ m' &&& cfg.markAccept = cfg.markAccept
+      else TShape cfg (tiersVerdict (policyTiers env pkt polRules tiers true)) (fun m' => .returned m') r
+    | _ => TShape cfg (tiersVerdict (policyTiers env pkt polRules tiers false)) (fun m' => .returned m') r := by
+  intro r
+  have hb := targets_behave cfg mo vb vd env pkt chains tiers polRules out F hgrp hpol o1 o2
+  have hp := profiles_behave cfg mo env pkt chains profiles polRules out F hprof o3
+  have hsh := endpoint_chain_shape_any cfg vb e env (evalChain env chains pkt (F + 3)) pkt name tiers profiles out m
+    hup hfs hct henc hb hp hmD
+  have hr : r = runRules env (evalChain env chains pkt (F + 3)) pkt (endpointChain cfg e name tiers profiles).rules m :=
+    evalChain_of_lookup hep _ _
+  have hflat : ∀ endDrop : Bool,
+      tiersVerdict (tiers.map fun t => ((tierTargets t).map (fun th => out th.1), t.defaultPass || !endDrop)) =
+        tiersVerdict (policyTiers env pkt polRules tiers endDrop) := fun endDrop =>
+    tiersVerdict_flatten tiers out (fun c => policyOutcome env pkt.v6 pkt (polRules c)) (fun d => d || !endDrop) o1 o2
+  have hpo : profiles.map out = profiles.map fun p => policyOutcome env pkt.v6 pkt (polRules p) :=
+    List.map_congr_left o3
+  simp only at hsh
+  rw [← hr] at hsh
+  cases hty : e.chainType <;> simp only [hty] at hsh ⊢
+  · rw [endpointVerdict_eq, ← hflat true, ← hpo]; exact hsh
+  · rw [← hflat false]; exact hsh
+  · rw [← hflat false]; exact hsh
+  · rw [← hflat true]; exact hsh
+
 end CalicoVerif.C09
